@@ -43,7 +43,10 @@ def build_world():
     J1 = cc.StingyConfigurator(pg.AtLeast(2, [puan.variable("x", (0, 3)), "y"], variable="R"), id="cfj")
     J2 = cc.StingyConfigurator(pg.AtLeast(2, [puan.variable("x", (1, 2)), "y"], variable="R"), id="cfj")
     K3 = cc.StingyConfigurator(cc.Xor("x", "y", "z", default=["z"], variable="X"), cc.Any("a", "b", default=["a"], variable="Y"), id="k3")
-    return {"M": M, "N": N, "G": G, "K1": K1, "K2": K2, "J1": J1, "J2": J2, "K3": K3}
+    # an object that did NOT come straight out of a constructor: negate() with the negation pushed inwards (its child list is assigned
+    # by negate(), not sorted by a constructor), over an atom and a compound whose id sorts after the atom's
+    NG = pg.Any("a", pg.All("x", "y", variable="b"), variable="NGsrc").negate()
+    return {"M": M, "N": N, "G": G, "K1": K1, "K2": K2, "J1": J1, "J2": J2, "K3": K3, "NG": NG}
 
 
 INTERPS = {
@@ -151,6 +154,17 @@ def ops_menu():
             if fname != "reduce":
                 add(f"{X}.{fname}>assume[sub=1]", derived(X, first, then_assume))
     add("K3.assume[partial]>evaluate[rule=0]", lambda w: (lambda r: r.evaluate({"X": 0}) if isinstance(r, pg.AtLeast) else r)(w["K3"].assume({"a": 1})))
+    add("NG.to_text", lambda w: w["NG"].to_text())
+    add("NG.to_short", lambda w: w["NG"].to_short())
+    add("NG.to_json", lambda w: json.dumps(w["NG"].to_json()))
+    add("NG.to_b64", lambda w: w["NG"].to_b64())
+    add("NG.hash", lambda w: hash(w["NG"]) == hash(w["NG"]))
+    add("NG.children", lambda w: [str(p.id) for p in w["NG"].propositions])
+    add("NG.to_ge_polyhedron[T]", lambda w: w["NG"].to_ge_polyhedron(active=True))
+    add("NG.evaluate[total]", lambda w: w["NG"].evaluate({"a": 0, "x": 1, "y": 0}))
+    add("NG.errors", lambda w: [str(e) for e in w["NG"].errors()])
+    add("NG.flatten", lambda w: w["NG"].flatten())
+    add("NG.negate", lambda w: w["NG"].negate())
     add("from_json(M.to_json)", lambda w: pg.from_json(json.loads(json.dumps(w["M"].to_json()))))
     add("from_json(G.to_json)", lambda w: pg.from_json(json.loads(json.dumps(w["G"].to_json()))))
     add("from_b64(N.to_b64)", lambda w: pg.from_b64(w["N"].to_b64()))
